@@ -331,7 +331,11 @@ func c18Random(c *core.Ctx, idx int) {
 	var bits uint16
 	id, cat, delim, sym := "", "", "", ""
 	var enc [][]string
+	// a new instance starts with the package default log level in force at its creation (first-sight modes 3..5 install one)
 	var lvl uint16
+	if d0, ok := stackage.VerifDump(s); ok {
+		lvl = d0.LogLvl
+	}
 	fifo := false
 	aux0 := stackage.Auxiliary(nil)
 	content, _ := Take(s)
@@ -651,6 +655,9 @@ func c18RandomCond(c *core.Ctx, idx int) {
 		c.Violate("cond:"+key, fmt.Sprintf("%s after [%s]", msg, strings.Join(log, "; ")), map[string]any{"calls": log})
 	}
 	var bits, lvl uint16
+	if d0, ok := stackage.VerifDump(cd); ok {
+		lvl = d0.LogLvl
+	}
 	id, cat := "", ""
 	var enc [][]string
 	for step := 0; step < 24; step++ {
